@@ -731,32 +731,35 @@ class DFA:
 
         visited = set()
 
-        def aux(state):
-            if not state:
-                return
-            if state in visited:
-                return
-            visited.add(state)
-            yield state
-
+        def successors(state):
             for t in state.all_transitions():
                 use_real = True
                 for action in t.actions:
                     if action.get_target_override_mode() == ActionOverrideMode.ALWAYS_GOTO_OTHER:
                         use_real = False
-                        for tgt in action.get_target_override_targets():
-                            yield from aux(tgt)
+                        yield from action.get_target_override_targets()
                         break
                     elif action.get_target_override_mode() == ActionOverrideMode.ALWAYS_GOTO_UNDEFINED:
                         use_real = False
                         break
                     elif action.get_target_override_mode() == ActionOverrideMode.MAY_GOTO_TARGET:
-                        for tgt in action.get_target_override_targets():
-                            yield from aux(tgt)
+                        yield from action.get_target_override_targets()
                 if use_real:
-                    yield from aux(t.target)
+                    yield t.target
 
-        yield from aux(self.starting_state)
+        # explicit stack instead of recursion (same visiting order): long literals make chains of thousands of states
+        pending = [iter((self.starting_state,))]
+        while pending:
+            try:
+                state = next(pending[-1])
+            except StopIteration:
+                pending.pop()
+                continue
+            if not state or state in visited:
+                continue
+            visited.add(state)
+            yield state
+            pending.append(successors(state))
 
     def error_handling_transitions(self, include_states=False):
         """
